@@ -12,7 +12,7 @@ from layout import mutate, VOCAB, relayout
 
 S = Sym
 PROPERTY = 'C07'
-PROPS_MODULES = ['C07']
+PROPS_MODULES = ['C07', 'C07b', 'C07c']
 ASSUMPTIONS = ['termination is observed (every call returned within the run), bounded nesting depth (generated texts nest at most ~12 levels)',
                'Lark itself is not modelled: its exceptions are only classified (HplSyntaxError wraps UnexpectedToken/UnexpectedCharacters)']
 DOCUMENTED = {'ok', 'syntax', 'sanity', 'type', 'value'}
